@@ -2242,7 +2242,14 @@ func c23Numbers(x *c23Ctx) {
 			}
 			return fmtInfo{shortest: true}
 		case strings.HasPrefix(id, "fmt."):
-			return fmtInfo{bad: id + " with a float verb prints a rounded value (%f keeps 6 decimals)"}
+			return fmtInfo{bad: id + " with a float verb prints a rounded value (%f keeps 6 decimals: 0.0000001 becomes 0.000000)"}
+		case (id == "strconv.FormatInt" || id == "strconv.FormatUint" || id == "strconv.Itoa") && len(call.Args) >= 1:
+			// the float printed through a conversion to an integer type
+			if cv, ok := core.Unparen(call.Args[0]).(*ast.CallExpr); ok && len(cv.Args) == 1 {
+				if tv, isT := info.Types[cv.Fun]; isT && tv.IsType() && isFloat(cv.Args[0]) {
+					return fmtInfo{bad: id + " of the float converted to an integer type: the conversion is exact only below 2^63 in magnitude (1e19 comes back as -9223372036854775808) and drops the sign of -0"}
+				}
+			}
 		}
 		hf := up.CalleeFunc(call)
 		if hf == nil || depth >= 3 || len(call.Args) != 1 {
@@ -2281,18 +2288,22 @@ func c23Numbers(x *c23Ctx) {
 		rets := c23ReturnExprs(hf)
 		if !res.shortest {
 			// a plain wrapper: every return is itself a recognised formatting
+			all := len(rets) > 0
 			for _, r := range rets {
 				ci := classify(r, depth+1)
 				switch {
 				case ci.shortest:
-					res.shortest = true
 					res.forced = res.forced || ci.forced
 				case ci.bad != "":
 					res.bad = ci.bad
+					all = false
 				default:
 					res.und = ci.und
+					all = false
 				}
 			}
+			// the helper formats exactly only if EVERY way out of it does
+			res.shortest = all
 			if len(rets) == 0 {
 				res.und = "helper returns nothing recognisable"
 			}
@@ -2453,7 +2464,7 @@ func c23Numbers(x *c23Ctx) {
 			ci := classify(call, 0)
 			switch {
 			case ci.bad != "":
-				c.Fail("C23-R4", key, pos(c, call), "the formatter prints "+spec.what+" with "+ci.bad+": the formatted program has a different number (0.0000001 becomes 0.000000)")
+				c.Fail("C23-R4", key, pos(c, call), "the formatter prints "+spec.what+" with "+ci.bad+": the formatted program has a different number")
 			case !ci.shortest:
 				c.Undecided("C23-R4", key, pos(c, call), "float formatting not recognised: "+ci.und)
 			case spec.needFloat && !ci.forced && ci.und != "":
